@@ -203,10 +203,10 @@ func c12r2(r *R) {
 		}
 		f, ok := unbox(st.Val).(*ssa.Function)
 		ia, ok2 := st.Addr.(*ssa.IndexAddr)
-		if ok && ok2 && strings.HasPrefix(f.Name(), "handle") {
+		if ok && ok2 && strings.HasPrefix(refName(f), "handle") {
 			i, _ := constInt(ia.Index)
-			idx[f.Name()] = i
-			handlers = append(handlers, f.Name())
+			idx[refName(f)] = i
+			handlers = append(handlers, refName(f))
 		}
 	})
 	sort.Slice(handlers, func(i, j int) bool { return idx[handlers[i]] < idx[handlers[j]] })
@@ -467,7 +467,7 @@ func c12r6(r *R) {
 			}
 			site := fname(fn) + "#assert(" + typeStr(ta.AssertedType) + ")"
 			okSite := strings.HasSuffix(typeStr(ta.AssertedType), "*[]byte") || strings.Contains(fname(fn), "martian/fifo") || strings.Contains(fname(fn), "streamProcessors") ||
-				(fn.Name() == "ContextTraceID" || fn.Name() == "ContextDuration") && typeStr(ta.AssertedType) == "martian.traceID" // private context key: only withTraceID stores under it, always a traceID
+				(refName(fn) == "ContextTraceID" || refName(fn) == "ContextDuration") && typeStr(ta.AssertedType) == "martian.traceID" // private context key: only withTraceID stores under it, always a traceID
 			r.check(okSite, site, ta.Pos(), "element type of the copy-buffer pool / internal container", "unchecked type assertion in the request path: a value of another type crashes the process")
 		})
 	}
